@@ -557,7 +557,7 @@ def nested_run(ctx, dbs, base, group_of, TAGS, eval_con, agg):
                     consts = mk is None or (mk.get('sk') in CP and mk.get('ek') in ('const', 'param'))
                     if cform == 'slice':
                         if consts and y == -1 and x in (None, 0): devs.append((['C25-SLICE-STOP-MINUS-ONE'], dev_stop_minus_one))
-                        if mk is not None and mk.get('ek') == 'expr' and mk.get('sk') in CP and x in (None, 0):
+                        if mk is not None and mk.get('ek') == 'expr' and mk.get('sk') in CP and x in (None, 0) and ctx.is_open('C25-SLICE-EXPR-STOP-IGNORED'):
                             devs.append((['C25-SLICE-EXPR-STOP-IGNORED'], lambda s_, a_, b_: s_))
                         if judge in ('mysql', 'oracle') and x is not None and x < 0:
                             devs.append((['C25-GENERIC-NEG-START-BEYOND-LENGTH'], lambda s_, a_, b_: '' if -a_ > len(s_) else s_[a_:b_]))
@@ -688,7 +688,7 @@ def run(ctx):
             # sentinel -1 in StringMixin.__getitem__: "start omitted/0 and stop_value == -1 => no slice"
             if q['ek'] in ('const', 'param') and stop == -1 and same(got, dev_stop_minus_one(s, start, stop), nullish):
                 return 'finding', 'C25-SLICE-STOP-MINUS-ONE', exp
-            if q['ek'] == 'expr' and same(got, s, nullish):
+            if q['ek'] == 'expr' and ctx.is_open('C25-SLICE-EXPR-STOP-IGNORED') and same(got, s, nullish):
                 return 'finding', 'C25-SLICE-EXPR-STOP-IGNORED', exp
         if errtext is not None and judge == 'postgres' and 'negative substring length' in errtext \
                 and q['form'] == 'slice' and q['sk'] in ('const', 'param') and q['ek'] in ('const', 'param') \
